@@ -26,7 +26,7 @@ type specCase struct {
 // actions of RecordsCases.tla and the kind of state each one produces
 var actionKinds = map[string]string{
 	"Group": "group", "PickVLQ": "vlq", "PickVLQDec": "vlqdec", "PickVLQRange": "vlqrange", "PickAmount": "amount",
-	"PickCAmount": "camount", "PickAmtRange": "amtrange", "PickScript": "script", "PickCScript": "cscript",
+	"PickCAmount": "camount", "PickAmtRange": "amtrange", "PickScript": "script", "PickCScript": "cscript", "PickCSize": "csize",
 	"PickTxOut": "txout", "PickUtxo": "utxo", "PickKeyPair": "keypair", "PickStxo": "stxo", "PickJournal": "journal",
 	"PickBest": "best", "PickRow": "row", "PickLegacy": "legacy", "PickChain": "chain",
 }
